@@ -4,7 +4,7 @@
 use super::common::*;
 use crate::det::{explore, Execution, Sched};
 use crate::evidence::{Args, Run};
-use hyperdriver::server::conn::{http1, http2};
+use hyperdriver::server::conn::{http1, http2, Acceptor};
 use hyperdriver::server::AutoBuilder;
 use hyperdriver::stream::duplex;
 use hyperdriver::{Body, Server};
@@ -27,6 +27,9 @@ pub struct Scn {
     pub clients: Vec<Proto>,
     pub late_client: bool,
     pub bufsize: usize,
+    /// the server's acceptor terminates TLS; clients speak TLS (silent clients send the first n bytes
+    /// of a recorded ClientHello instead of preface bytes)
+    pub tls: bool,
 }
 
 macro_rules! spawn_server {
@@ -58,24 +61,40 @@ pub struct Outcome {
     pub signal_point: Option<usize>,
 }
 
+thread_local! {
+    static TLS: Option<std::sync::Arc<super::tlsfix::TlsFixture>> = super::tlsfix::TlsFixture::load().ok().map(std::sync::Arc::new);
+}
+
 pub fn run_one(scn: &Scn, schedule: &[usize]) -> Execution<Outcome> {
     let mut s = Sched::new(schedule.to_vec());
     let obs = new_obs();
     let (client, incoming) = duplex::pair();
     let (sig_tx, sig_rx) = tokio::sync::oneshot::channel::<()>();
     let hold = Gate::new();
-    match scn.srv {
-        SrvProto::Http1 => spawn_server!(s, http1::Builder::new(), incoming, obs, sig_rx),
-        SrvProto::Http2 => spawn_server!(s, http2::Builder::new(s.exec.clone()), incoming, obs, sig_rx),
-        SrvProto::Auto => spawn_server!(s, AutoBuilder::new(s.exec.clone()), incoming, obs, sig_rx),
+    let fx = if scn.tls { TLS.with(|t| t.clone()) } else { None };
+    if scn.tls && fx.is_none() {
+        return Execution { points: vec![], outcome: Outcome { viols: vec![("machinery".into(), "TLS fixtures could not be loaded".into())], trace: String::new(), schedule: vec![], signal_point: None } };
+    }
+    let connector = fx.as_ref().map(|f| f.any_cert_connector.clone());
+    match (&fx, scn.srv) {
+        (None, SrvProto::Http1) => spawn_server!(s, http1::Builder::new(), incoming, obs, sig_rx),
+        (None, SrvProto::Http2) => spawn_server!(s, http2::Builder::new(s.exec.clone()), incoming, obs, sig_rx),
+        (None, SrvProto::Auto) => spawn_server!(s, AutoBuilder::new(s.exec.clone()), incoming, obs, sig_rx),
+        (Some(f), SrvProto::Http1) => spawn_server!(s, http1::Builder::new(), Acceptor::from(incoming).with_tls(f.server_config.clone()), obs, sig_rx),
+        (Some(f), SrvProto::Http2) => spawn_server!(s, http2::Builder::new(s.exec.clone()), Acceptor::from(incoming).with_tls(f.server_config.clone()), obs, sig_rx),
+        (Some(f), SrvProto::Auto) => spawn_server!(s, AutoBuilder::new(s.exec.clone()), Acceptor::from(incoming).with_tls(f.server_config.clone()), obs, sig_rx),
     }
     for (i, p) in scn.clients.iter().enumerate() {
         let id = (i + 1) as u32;
-        s.spawn(&format!("client{id}"), raw_client(client.clone(), s.exec.clone(), *p, id, scn.bufsize, obs.clone(), hold.clone()));
+        s.spawn(&format!("client{id}"), raw_client_over(client.clone(), connector.clone(), s.exec.clone(), *p, id, scn.bufsize, obs.clone(), hold.clone()));
     }
     for (i, n) in scn.silent.iter().enumerate() {
         let id = 70 + i as u32;
-        s.spawn(&format!("silent{id}"), silent_client(client.clone(), id, scn.bufsize, crate::props::iomc::PREFACE[..*n].to_vec(), obs.clone(), hold.clone()));
+        let prefix = match &fx {
+            Some(f) => f.client_hello[..(*n).min(f.client_hello.len())].to_vec(),
+            None => crate::props::iomc::PREFACE[..*n].to_vec(),
+        };
+        s.spawn(&format!("silent{id}"), silent_client(client.clone(), id, scn.bufsize, prefix, obs.clone(), hold.clone()));
     }
     let n_silent = scn.silent.len() as u32;
     // the shutdown signal: by default at the first quiescent point, as a deviation at any point
@@ -98,7 +117,7 @@ pub fn run_one(scn: &Scn, schedule: &[usize]) -> Execution<Outcome> {
         let proto = *scn.clients.first().unwrap_or(&Proto::H1);
         s.env("late-connect", true, move |s| s.envs[signal_env].fired, move |s| {
             let exec = s.exec.clone();
-            s.spawn("client99", raw_client(c2, exec, proto, 99, bufsize, obs2, hold2));
+            s.spawn("client99", raw_client_over(c2, connector, exec, proto, 99, bufsize, obs2, hold2));
         });
     }
     // (iv)/(v) are evaluated at the first quiescent point after the signal, while clients still hold
@@ -225,6 +244,7 @@ pub fn scenarios(thorough: bool) -> Vec<Scn> {
         clients,
         late_client: late,
         bufsize,
+        tls: false,
     };
     let mks = |name: &str, srv, silent: Vec<usize>, clients: Vec<Proto>| Scn {
         name: name.to_string(),
@@ -233,6 +253,7 @@ pub fn scenarios(thorough: bool) -> Vec<Scn> {
         clients,
         late_client: false,
         bufsize: 1024,
+        tls: false,
     };
     v.push(mk("h1-0conn", SrvProto::Http1, vec![], false, 1024));
     v.push(mk("h1-1conn", SrvProto::Http1, vec![Proto::H1], false, 1024));
@@ -249,6 +270,23 @@ pub fn scenarios(thorough: bool) -> Vec<Scn> {
     v.push(mks("h1-silent", SrvProto::Http1, vec![0], vec![]));
     v.push(mks("h2-silent", SrvProto::Http2, vec![0], vec![]));
     v.push(mks("auto-silent+h1", SrvProto::Auto, vec![0], vec![Proto::H1]));
+    // the same over a TLS-terminating acceptor: handshakes in flight, silent and half-said hellos
+    let tls = |mut s: Scn| {
+        s.name = format!("tls-{}", s.name);
+        s.tls = true;
+        s
+    };
+    v.push(tls(mk("h1-1conn", SrvProto::Http1, vec![Proto::H1], false, 1024)));
+    v.push(tls(mk("auto-1conn-h1", SrvProto::Auto, vec![Proto::H1], false, 1024)));
+    v.push(tls(mks("auto-silent", SrvProto::Auto, vec![0], vec![])));
+    v.push(tls(mks("auto-partial-hello", SrvProto::Auto, vec![40], vec![])));
+    v.push(tls(mks("h1-partial-hello", SrvProto::Http1, vec![40], vec![])));
+    if thorough {
+        v.push(tls(mk("auto-1conn-h2", SrvProto::Auto, vec![Proto::H2], false, 1024)));
+        v.push(tls(mk("auto-1conn-h1-late", SrvProto::Auto, vec![Proto::H1], true, 1024)));
+        v.push(tls(mks("h2-silent", SrvProto::Http2, vec![0], vec![])));
+        v.push(tls(mks("auto-silent+h1", SrvProto::Auto, vec![0], vec![Proto::H1])));
+    }
     if thorough {
         v.push(mks("auto-two-silent+h2", SrvProto::Auto, vec![0, 23], vec![Proto::H2]));
         v.push(mk("h2-2conn", SrvProto::Http2, vec![Proto::H2, Proto::H2], false, 1024));
